@@ -1,0 +1,13 @@
+//go:build verif
+
+package apifu
+
+// VerifWSConnectionCount returns the number of WebSocket connections currently held in the API's
+// connection registry (the set CloseHijackedConnections iterates over). It exists only in builds
+// with the "verif" tag and is used by the verification harness to observe that a connection is
+// deregistered after it has closed.
+func (api *API) VerifWSConnectionCount() int {
+	api.graphqlWSConnectionsMutex.Lock()
+	defer api.graphqlWSConnectionsMutex.Unlock()
+	return len(api.graphqlWSConnections)
+}
